@@ -109,7 +109,7 @@ def check_G2(ctx, facts):
            'every key of the new handlers is recorded under the service name' if good else 'service table does not record every new handler key under the service name')
 
 
-def check_G3(ctx, facts):
+def check_G3(ctx, facts, dispatch_sem=False):
     # registry side
     addh = facts.body(R + 'handler::ServiceRegistry::add_handler')
     gh = facts.body(R + 'server::ServerState::get_handler')
@@ -164,7 +164,9 @@ def check_G3(ctx, facts):
            'hash is instantiated at %s: registry and lookup keys hash differently' % hash_types)
     # request path handed to get_handler unmodified
     thr = [b for b in facts.bodies.values() if b.crate == 'datacake_rpc' and b.kind == 'coroutine' and b.name.startswith(R + 'net::server::try_handle_request')]
-    for b in thr:
+    # (decided by the dispatch summary when it applies: there the registered handler is only found if the path reaches the lookup
+    # as it came in)
+    for b in ([] if dispatch_sem else thr):
         flow = Flow(b)
         calls = list(b.calls())
         g = [(bb, t) for bb, t in calls if cname(t) == R + 'server::ServerState::get_handler']
@@ -255,9 +257,10 @@ def check(ctx):
     if not registry_abs.check_registry(ctx, facts, 'C13.SEM'):
         check_G1(ctx, facts, cg)
         check_G2(ctx, facts)
-    check_G3(ctx, facts)
     # SEM: one request through the connection handler, interpreted against a registry that does / does not hold the handler and
-    # against both answers of the handler (server_abs); subsumes G4
+    # against both answers of the handler (server_abs); subsumes G4 and the request-path clause of G3
     import server_abs
-    if not server_abs.check_dispatch(ctx, facts, 'C13.SEM'):
+    sem = server_abs.check_dispatch(ctx, facts, 'C13.SEM')
+    check_G3(ctx, facts, dispatch_sem=bool(sem))
+    if not sem:
         check_G4(ctx, facts)
